@@ -95,13 +95,16 @@ Definition dispatch_wgen (fields : list bytes) : bytes :=
 
 (* ---- examples: the answers below are the ones printed by the real harness (sjh_ser) for the same lines ---- *)
 Module Examples.
+  Import Strings.String.StringSyntax.
+  Local Open Scope string_scope.
   Fixpoint bytes_of_string (s : String.string) : bytes :=
     match s with String.EmptyString => [] | String.String a r => Ascii.N_of_ascii a :: bytes_of_string r end.
   (* a line, split at spaces like ocaml/driver_ser.ml does *)
   Definition line (s : String.string) : list bytes := filter (fun f => negb (Nat.eqb (length f) 0)) (split_on 32 (bytes_of_string s)).
   Definition ans (s : String.string) : bytes := bytes_of_string s.
 
-  (* struct { a: 17u8, b: true }, compact: the write_all buffers are  {  "  a  "  :  17  ,  "  b  "  :  true  }  *)
+  (* struct { a: 17u8, b: true }, compact: 17 write_all buffers, one per quote / brace / colon / comma, key text and scalar
+     (hex 7b 22 61 22 3a 3137 2c 22 62 22 3a 74727565 7d) *)
   Example ex_never :
     dispatch_wgen (line "wf - c - - 1 a R(61;If17;62;T)") = ans "7b2261223a31372c2262223a747275657d ok".
   Proof. vm_compute. reflexivity. Qed.
@@ -116,13 +119,13 @@ Module Examples.
     dispatch_wgen (line "wf - c - o5 3 s1,0,2 R(61;If17;62;T)") = ans "7b2261223a err Io 3 after=0 fired=true".
   Proof. vm_compute. reflexivity. Qed.
 
-  (* one-shot with a schedule starting with Interrupted: call 0 is Interrupted, calls 1..3 take `{`, `"`, `a`, call 4 is
+  (* one-shot with a schedule starting with Interrupted: call 0 is Interrupted, calls 1..3 take 7b, 22, 61, call 4 is
      Interrupted although 3 bytes were accepted already (the schedule is looked at first), call 5 fails *)
   Example ex_once_interrupted :
     dispatch_wgen (line "wf - c - o3 4 s0,1 R(61;If17;62;T)") = ans "7b2261 err Io 4 after=0 fired=true".
   Proof. vm_compute. reflexivity. Qed.
 
-  (* bounded sink of 6 bytes: "17" does not fit behind the 5 bytes `{"a":` and is refused whole *)
+  (* bounded sink of 6 bytes: "17" does not fit behind the 5 bytes 7b2261223a and is refused whole *)
   Example ex_cap :
     dispatch_wgen (line "wf - c - b6 4 a R(61;If17;62;T)") = ans "7b2261223a err Io 4 after=0 fired=true".
   Proof. vm_compute. reflexivity. Qed.
